@@ -127,6 +127,38 @@ Theorem C18_rsplit_none_split : forall s, rsplit s = None -> split_dot s = [s].
 Proof. exact rsplit_none_split. Qed.
 Print Assumptions C18_rsplit_none_split.
 
+(* a type system that grows (create_feature only adds names): a path that resolved before resolves to the
+   same value afterwards, a set that succeeded does the same assignment afterwards *)
+Theorem C18_get_schema_mono : forall s s' h root path,
+  sch_le s s' -> get s h root path <> VNone -> get s' h root path = get s h root path.
+Proof. exact get_schema_mono. Qed.
+Print Assumptions C18_get_schema_mono.
+
+Theorem C18_set_schema_mono : forall s s' h root path v h',
+  sch_le s s' -> set s h root path v = (h', None) -> set s' h root path v = (h', None).
+Proof. exact set_schema_mono. Qed.
+Print Assumptions C18_set_schema_mono.
+
+(* the boolean form of "only adds features" checked on every staged case implies the premise above *)
+Theorem C18_sch_leb_sound : forall s s', sch_leb s s' = true -> sch_le s s'.
+Proof. exact sch_leb_sound. Qed.
+Print Assumptions C18_sch_leb_sound.
+
+(* get and set depend on the type system only through the feature relation at the moment of the call *)
+Theorem C18_get_set_schema_ext : forall s s' h root path v,
+  (forall t f, is_feature s t f = is_feature s' t f) ->
+  get s h root path = get s' h root path /\ set s h root path v = set s' h root path v.
+Proof. exact get_set_schema_ext. Qed.
+Print Assumptions C18_get_set_schema_ext.
+
+(* a name that becomes a feature later: None / AttributeError before, the slot / an assignment afterwards *)
+Theorem C18_late_feature_visible : forall s s' h o ob f,
+  hget o h = Some ob -> is_feature s (o_type ob) f = false -> is_feature s' (o_type ob) f = true ->
+  step s h (VRef o) f = VNone /\ snd (assign s h (VRef o) f (slot ob f)) = Some EAttribute /\
+  step s' h (VRef o) f = slot ob f /\ forall v, snd (assign s' h (VRef o) f v) = None.
+Proof. exact late_feature_visible. Qed.
+Print Assumptions C18_late_feature_visible.
+
 (* regression (pre a5be5cd): a bare setattr accepted the base-class slots type / xmiID as last name *)
 Theorem C18_old_set_refuted :
   exists sch h root path t ob,
@@ -150,3 +182,21 @@ Example C18_premises_hold :
   snd (set sch h 0%N "b.xmiID" (VPrim "i:1")) = Some EAttribute /\
   split_dot "a..b." = ["a"; ""; "b"; ""] /\ rsplit "a..b." = Some ("a..b", "").
 Proof. cbv zeta. repeat split; try (vm_compute; reflexivity). eexists. split; vm_compute; reflexivity. Qed.
+
+(* non-vacuity of the growth theorems: "weight" is added to the supertype's features after "next.weight" was
+   looked up; the old path gives None and refuses the set, the new schema reads and assigns the slot, and a
+   path that resolved before ("next.next") is unchanged *)
+Example C18_growth_premises_hold :
+  let s := [("t.Node", ["next"])] in
+  let s' := [("t.Node", ["weight"; "next"])] in
+  let h := [(0%N, mkObj "t.Node" [("next", VRef 1%N); ("weight", VPrim "i:1")]);
+            (1%N, mkObj "t.Node" [("next", VRef 0%N); ("weight", VPrim "i:2")])] in
+  sch_leb s s' = true /\ sch_le s s' /\ get s h 0%N "next.weight" = VNone /\ snd (set s h 0%N "next.weight" (VPrim "i:9")) = Some EAttribute /\
+  get s' h 0%N "next.weight" = VPrim "i:2" /\ snd (set s' h 0%N "next.weight" (VPrim "i:9")) = None /\
+  get s h 0%N "next.next" = VRef 0%N /\ get s' h 0%N "next.next" = VRef 0%N.
+Proof.
+  cbv zeta. split; [vm_compute; reflexivity|]. split; [|repeat split; vm_compute; reflexivity].
+  intros t f. unfold is_feature. cbn [alookup].
+  destruct (String.eqb t "t.Node"); cbv iota; [|discriminate].
+  rewrite !memb_In. cbn [In]. tauto.
+Qed.
